@@ -14,78 +14,13 @@
 (* Part 4: a small state machine (Build -> Wrap -> Rewrap | Edit -> Wrap)  *)
 (*         whose terminal states are emitted as implementation test cases. *)
 (***************************************************************************)
-EXTENDS Naturals, Integers, Sequences, FiniteSets, TLC, Json
+EXTENDS TrsForm, TLC, Json
 
 CONSTANTS TwpNums,     \* numbers used for townships and ranges (1000 = too large)
           SecNums,     \* numbers used for sections (100 = too large)
           EditAlphabet,\* characters inserted / substituted by the edit model
           Fault, EmitCases
 
-Digit == {"0", "1", "2", "3", "4", "5", "6", "7", "8", "9"}
-DigitChars == <<"0", "1", "2", "3", "4", "5", "6", "7", "8", "9">>
-DVal(c) == CHOOSE v \in 0..9 : DigitChars[v + 1] = c
-NSl == {"n", "s"}   EWl == {"e", "w"}
-Lower(c) == CASE c = "N" -> "n" [] c = "S" -> "s" [] c = "E" -> "e" [] c = "W" -> "w" [] OTHER -> c
-
-ErrTwp == <<"X", "X", "X", "z">>     UndefTwp == <<"_", "_", "_", "z">>
-ErrSec == <<"X", "X">>               UndefSec == <<"_", "_">>
-ErrTrs == ErrTwp \o ErrTwp \o ErrSec
-UndefTrs == UndefTwp \o UndefTwp \o UndefSec
-
-RECURSIVE SeqNum(_, _)
-SeqNum(ds, k) == IF k = 0 THEN 0 ELSE SeqNum(ds, k - 1) * 10 + DVal(ds[k])
-NumSeq(n) == IF n < 10 THEN <<DigitChars[n + 1]>>
-             ELSE IF n < 100 THEN <<DigitChars[(n \div 10) + 1], DigitChars[(n % 10) + 1]>>
-             ELSE IF n < 1000 THEN <<DigitChars[(n \div 100) + 1], DigitChars[((n \div 10) % 10) + 1], DigitChars[(n % 10) + 1]>>
-             ELSE <<DigitChars[(n \div 1000) + 1], DigitChars[((n \div 100) % 10) + 1], DigitChars[((n \div 10) % 10) + 1], DigitChars[(n % 10) + 1]>>
-Pad2(n) == IF n < 10 THEN <<"0">> \o NumSeq(n) ELSE NumSeq(n)
-AllDigits(s) == \A i \in 1..Len(s) : s[i] \in Digit
-
----------------------------------------------------------------------------
-(* Part 1 *)
-Num(n, d) == [k |-> "num", n |-> n, d |-> d]
-SNum(n)   == [k |-> "num", n |-> n]
-Err   == [k |-> "err"]
-Undef == [k |-> "undef"]
-
-\* does the char sequence t spell a township (dirs = NSl) / range (dirs = EWl)?
-IsNumDir(t, dirs) == Len(t) \in 2..4 /\ AllDigits(SubSeq(t, 1, Len(t) - 1)) /\ Lower(t[Len(t)]) \in dirs
-IsTR(t, dirs) == IsNumDir(t, dirs) \/ t = ErrTwp \/ t = UndefTwp
-IsSec(t) == (Len(t) = 2 /\ AllDigits(t)) \/ t = ErrSec \/ t = UndefSec
-\* the (unique) split of s into twp / rge / sec, if any
-Splits(s) == {<<i, j>> \in (1..Len(s)) \X (1..Len(s)) :
-                 /\ i < j /\ j < Len(s)
-                 /\ IsTR(SubSeq(s, 1, i), NSl)
-                 /\ IsTR(SubSeq(s, i + 1, j), EWl)
-                 /\ IsSec(SubSeq(s, j + 1, Len(s)))}
-IsExtStd(s) == Splits(s) # {}
-\* twp + rge without any section: accepted by the code with an error section
-SplitsNoSec(s) == {i \in 1..Len(s) : i < Len(s) /\ IsTR(SubSeq(s, 1, i), NSl) /\ IsTR(SubSeq(s, i + 1, Len(s)), EWl)}
-
-CompTR(t) == IF t = ErrTwp THEN Err ELSE IF t = UndefTwp THEN Undef
-             ELSE Num(SeqNum(SubSeq(t, 1, Len(t) - 1), Len(t) - 1), Lower(t[Len(t)]))
-CompSec(t) == IF t = ErrSec THEN Err ELSE IF t = UndefSec THEN Undef ELSE SNum(SeqNum(t, 2))
-Decompose(s) == LET sp == CHOOSE p \in Splits(s) : TRUE
-                IN [twp |-> CompTR(SubSeq(s, 1, sp[1])),
-                    rge |-> CompTR(SubSeq(s, sp[1] + 1, sp[2])),
-                    sec |-> CompSec(SubSeq(s, sp[2] + 1, Len(s)))]
-
-CanonTR(c) == IF c.k = "err" THEN ErrTwp ELSE IF c.k = "undef" THEN UndefTwp ELSE NumSeq(c.n) \o <<c.d>>
-CanonSec(c) == IF c.k = "err" THEN ErrSec ELSE IF c.k = "undef" THEN UndefSec ELSE Pad2(c.n)
-Canon(cs) == CanonTR(cs.twp) \o CanonTR(cs.rge) \o CanonSec(cs.sec)
-LowerAll(s) == [i \in 1..Len(s) |-> Lower(s[i])]
-
-\* a string "looks valid" when all three components are numbers
-LooksValid(s) == IsExtStd(s) /\ LET d == Decompose(s) IN d.twp.k = "num" /\ d.rge.k = "num" /\ d.sec.k = "num"
-HasErrorPart(s) == IsExtStd(s) /\ LET d == Decompose(s) IN d.twp.k = "err" \/ d.rge.k = "err" \/ d.sec.k = "err"
-
-\* what wrapping an arbitrary string in TRS() must give (weaker reading, R3):
-\*   a string in the (extended) standard form is kept, direction letters lower-cased;
-\*   the empty string is the undefined TRS; anything else carries an error placeholder.
-WrapOK(s, out) ==
-  IF s = <<>> THEN out = UndefTrs
-  ELSE IF IsExtStd(s) THEN out = LowerAll(s)
-  ELSE HasErrorPart(out)
 \* the design of the code (what it does today): full error TRS, except that a
 \* missing section is tolerated
 WrapModel(s) ==
